@@ -29,6 +29,7 @@ typedef struct fsm {
   int       m_states[NR_CAP];             /* back / back11 */
   uint16_t  m_active_state_ids[NR_CAP];   /* backmp11 */
   _Bool     m_running;                    /* backmp11 */
+  struct { uint16_t cur_seq_cnt; } event_pool;   /* backmp11: the deque of occurrences is seen through the pool stubs */
   _Bool     m_event_processing, m_is_included;
   slist_t   m_substate_list;
   int       m_history_last[NR_CAP];     /* history policy memory (Always/Shallow) */
